@@ -281,6 +281,17 @@ func checkEntrySSA(c *core.Ctx, r *core.Rule, key string, fn *ssa.Function) {
 			}
 		}
 	}
+	// the configured prefix is looked at in cutPrefix only: any other comparison with it sees text that cutPrefix's
+	// input discipline (decoded path or normalised RawPath) does not cover
+	for _, f := range core.AllFuncs(fn) {
+		for _, b := range f.Blocks {
+			for _, in := range b.Instrs {
+				if fa, ok := in.(*ssa.FieldAddr); ok && fieldName(fa.X.Type(), fa.Field) == "Prefix" {
+					r.Fail(key+":prefix-read-outside-cutPrefix", c.Pos(fa.Pos()), "the configured path prefix is read outside cutPrefix: a test against raw request text (URL.EscapedPath, RawPath) rejects equivalent spellings of the prefix before normalisation")
+				}
+			}
+		}
+	}
 	if nCut == 0 || nNorm == 0 {
 		r.Fail(key+":entry-ssa", c.Pos(fn.Pos()), fmt.Sprintf("no cutPrefix (%d) / NormalizeEscapedPath (%d) call found", nCut, nNorm))
 	}
